@@ -82,6 +82,7 @@ func stressChild(args []string) int {
 			}
 		}
 	}
+	startHeartbeat()
 	rng := &xs{cfg.Seed*0x9E3779B97F4A7C15 + 1}
 	for round = 0; round < cfg.Rounds; round++ {
 		ch := channel.NewChannel()
@@ -174,10 +175,23 @@ func stressChild(args []string) int {
 			cw.Wait()
 			close(finished)
 		}()
-		select {
-		case <-finished:
-		case <-time.After(60 * time.Second):
-			vio("hang", "round did not terminate within 60s (P=%d C=%d N=%d cap=%d closers=%d)", cfg.P, cfg.C, cfg.N, cfg.Cap, cfg.Closers)
+		hung := false
+		startBeat := beat.Load()
+	waitRound:
+		for {
+			select {
+			case <-finished:
+				break waitRound
+			case <-time.After(time.Second):
+				// heartbeat, not wall-clock: a paused or starved process cannot raise the alarm
+				if beat.Load()-startBeat >= 1200 {
+					hung = true
+					break waitRound
+				}
+			}
+		}
+		if hung {
+			vio("hang", "round did not terminate within 60s of process run time (P=%d C=%d N=%d cap=%d closers=%d)", cfg.P, cfg.C, cfg.N, cfg.Cap, cfg.Closers)
 			res.Rounds = round
 			b, _ := json.Marshal(res)
 			fmt.Println(string(b))
